@@ -17,8 +17,11 @@ pub fn responder_of(rep: &[u8]) -> &'static str {
         "stun"
     } else if rep.len() >= 8 && (rep[4..8] == [0xff, b'S', b'M', b'B'] || rep[4..8] == [0xfe, b'S', b'M', b'B']) {
         "smb"
-    } else if (rep.len() >= 12 && rep[4..8] == [0, 0, 0, 1] && rep[8..12] == [0, 0, 0, 0]) || (rep.len() >= 16 && rep[0] & 0x80 != 0 && rep[8..12] == [0, 0, 0, 1]) {
-        "rpc"
+    } else if rep.len() >= 16 && rep[0] & 0x80 != 0 && (u32::from_be_bytes([rep[0] & 0x7f, rep[1], rep[2], rep[3]]) as usize) == rep.len() - 4 && rep[8..12] == [0, 0, 0, 1] {
+        // record-marked reply: the stream (ONC-RPC over TCP) responder
+        "rpc-tcp"
+    } else if rep.len() >= 12 && rep[4..8] == [0, 0, 0, 1] && rep[8..12] == [0, 0, 0, 0] {
+        "rpc-udp"
     } else {
         "other"
     }
@@ -41,7 +44,7 @@ fn smack_cmds(w: &[u8], last: Option<u16>) -> Vec<Cmd> {
 }
 
 pub fn run(rep: &mut Report, thorough: bool) {
-    rep.rule = "explicit-state product of the real compiled matcher (hook H3, one symbol per step, state carried exactly as a control block carries it) with the reference NFA of the 19 published signatures, over all 256 byte values and the end-of-input symbol, to a fixpoint; every transition classified agree / shadow / miss / extra / wrong; segmentation of one shortest witness per product state (whole call vs per byte vs every 2-piece split); observable level: complete valid requests of every signature over UDP, TCP whole, and TCP cut at every offset inside the signature prefix, at 3 port pairs and both IP versions".into();
+    rep.rule = "explicit-state product of the real compiled matcher (hook H3, one symbol per step, state carried exactly as a control block carries it) with the reference NFA of the 19 published signatures, over all 256 byte values and the end-of-input symbol, to a fixpoint; every transition classified agree / shadow / miss / extra / wrong; segmentation of one shortest witness per product state (whole call vs per byte vs every 2-piece split); observable level: complete valid requests of every signature over UDP, TCP whole, and TCP cut at every offset inside the signature prefix, at 3 port pairs and both IP versions; ADDED LATER: two cuts inside the signature, identification of WHICH responder answered (polyglot payloads), near-miss alterations (thorough: all 255 per signature byte), and a signature cut across two segments with 66000 other connections identified in between".into();
     rep.assumptions = vec![
         "reference signature set hard-coded from the statement and the constants of the pinned commit".into(),
         "implementation protocol ids 1..8 are translated by the table in harness/src/sig.rs".into(),
@@ -346,7 +349,8 @@ pub fn run(rep: &mut Report, thorough: bool) {
                     crate::sig::Proto::Ssh => "ssh",
                     crate::sig::Proto::Ghost => "ghost",
                     crate::sig::Proto::Stun => "stun",
-                    crate::sig::Proto::RpcTcp | crate::sig::Proto::RpcUdp => "rpc",
+                    crate::sig::Proto::RpcTcp => "rpc-tcp",
+                    crate::sig::Proto::RpcUdp => "rpc-udp",
                     crate::sig::Proto::Smb1 | crate::sig::Proto::Smb2 => "smb",
                 };
                 for o in it.outs.iter().skip(1) {
@@ -541,7 +545,8 @@ pub fn run(rep: &mut Report, thorough: bool) {
                     crate::sig::Proto::Ssh => "ssh",
                     crate::sig::Proto::Ghost => "ghost",
                     crate::sig::Proto::Stun => "stun",
-                    crate::sig::Proto::RpcTcp | crate::sig::Proto::RpcUdp => "rpc",
+                    crate::sig::Proto::RpcTcp => "rpc-tcp",
+                    crate::sig::Proto::RpcUdp => "rpc-udp",
                     crate::sig::Proto::Smb1 | crate::sig::Proto::Smb2 => "smb",
                 };
                 if let Some((_, app)) = it.outs[1].reply.as_deref().and_then(crate::mask::app_payload) {
